@@ -22,7 +22,12 @@ BUILD_FLAGS = {
     "asan": ["-fsanitize=address,undefined", "-fno-sanitize-recover=all"],
     "tsan": ["-fsanitize=thread", "-pthread"],
     "plain": [],
+    # clang 14 + libFuzzer (gcc has no -fsanitize=fuzzer); object-size is off because clang's
+    # UBSan raises a false alarm on zero-length-array empty classes of libstdc++
+    "fuzz": ["-fsanitize=fuzzer,address,undefined", "-fno-sanitize-recover=all", "-fno-sanitize=object-size", "-DVRT_FUZZ"],
 }
+BUILD_CXX = {"fuzz": "clang++"}
+BUILD_STD = {"fuzz": "-std=gnu++20"}
 ASAN_OPTIONS = ("abort_on_error=1:detect_leaks=1:detect_stack_use_after_return=1:"
                 "allocator_may_return_null=1:malloc_context_size=12:print_legend=0:"
                 "max_allocation_size_mb=4096")
@@ -119,12 +124,15 @@ def build(harness, build_name, extra_flags=()):
     cfg_in = os.path.join(inc, "st_config.h.in")
     if not os.path.exists(cfg_in):
         raise HarnessFailure("missing " + cfg_in)
+    cxx = BUILD_CXX.get(build_name, CXX)
     flags = BASE_FLAGS + BUILD_FLAGS[build_name] + list(extra_flags)
+    if build_name in BUILD_STD:
+        flags = [BUILD_STD[build_name] if f.startswith("-std=") else f for f in flags]
     key = hashlib.sha256()
     key.update(tree_hash([inc, os.path.join(REPO, "CMakeLists.txt")]).encode())
     key.update(tree_hash([os.path.join(VERIF, "rt"), src]).encode())
     key.update(" ".join(flags).encode())
-    key.update(subprocess.run([CXX, "--version"], capture_output=True, text=True).stdout.encode())
+    key.update(subprocess.run([cxx, "--version"], capture_output=True, text=True).stdout.encode())
     hid = key.hexdigest()[:24]
     cdir = os.path.join(BUILD, "cache", hid)
     binp = os.path.join(cdir, harness)
@@ -136,7 +144,7 @@ def build(harness, build_name, extra_flags=()):
     os.makedirs(os.path.join(tmp, "gen"))
     with open(os.path.join(tmp, "gen", "st_config.h"), "w") as f:
         f.write(gen_config(open(cfg_in, errors="replace").read()))
-    cmd = [CXX] + flags + ["-I" + os.path.join(tmp, "gen"), "-I" + inc, "-I" + os.path.join(VERIF, "rt"),
+    cmd = [cxx] + flags + ["-I" + os.path.join(tmp, "gen"), "-I" + inc, "-I" + os.path.join(VERIF, "rt"),
                            src, "-o", os.path.join(tmp, harness)]
     t0 = time.time()
     r = subprocess.run(cmd, capture_output=True, text=True)
@@ -432,6 +440,134 @@ def run_pool(binp, build_name, prop, tier, seed, nworkers, rundir, dbits, extra_
     for rep in res.reports:
         for v in rep.get("violations", []):
             add_violation(v["key"], v["phase"], v["index"], v["detail"], count=v.get("count", 1))
+    res.wall = time.time() - t0
+    return res
+
+
+# ---------------------------------------------------------------- libFuzzer runs (thorough tiers)
+def run_fuzz(binp, prop, seed, rundir, spec, dtable, dbits, wall_limit=4 * 3600):
+    """Runs `jobs` libFuzzer processes of a VRT_FUZZ build on a shared corpus for a fixed number of
+    executions each (a count, not a time budget), then re-runs every artifact they left on its own to
+    derive the violation key.  Returns a PoolResult."""
+    res = PoolResult()
+    t0 = time.time()
+    os.makedirs(os.path.join(rundir, "corpus"), exist_ok=True)
+    os.makedirs(os.path.join(rundir, "art"), exist_ok=True)
+    for i, sd in enumerate(spec.get("seeds", [])):
+        with open(os.path.join(rundir, "corpus", "seed%03d" % i), "wb") as f:
+            f.write(sd)
+    dictp = None
+    if spec.get("dict"):
+        dictp = os.path.join(rundir, "fuzz.dict")
+        with open(dictp, "w") as f:
+            for i, tok in enumerate(spec["dict"]):
+                f.write('t%d="%s"\n' % (i, "".join("\\x%02x" % b for b in tok)))
+    if not os.path.exists(dtable):
+        with open(dtable, "wb") as f:
+            f.truncate((1 << dbits) * 8)
+    env = dict(os.environ)
+    env.update({"ASAN_OPTIONS": ASAN_OPTIONS, "UBSAN_OPTIONS": UBSAN_OPTIONS, "LSAN_OPTIONS": LSAN_OPTIONS, "LC_ALL": "C",
+                "VRT_PROP": prop, "VRT_OUT": rundir, "VRT_DTABLE": dtable, "VRT_DBITS": str(dbits), "VRT_SEED": str(seed)})
+    jobs = spec.get("jobs", 16)
+    procs = []
+    for j in range(jobs):
+        cmd = [binp, "-runs=%d" % spec["runs"], "-seed=%d" % (seed * 1000 + j + 1), "-max_len=%d" % spec.get("max_len", 64),
+               "-timeout=1200", "-rss_limit_mb=8192", "-malloc_limit_mb=4096", "-print_final_stats=1", "-reload=1",
+               "-artifact_prefix=" + os.path.join(rundir, "art", ""), "-len_control=%d" % spec.get("len_control", 100)]
+        if dictp:
+            cmd.append("-dict=" + dictp)
+        cmd.append(os.path.join(rundir, "corpus"))
+        logp = os.path.join(rundir, "fuzz-%d.log" % j)
+        lf = open(logp, "wb")
+        procs.append((subprocess.Popen(cmd, stdout=lf, stderr=lf, env=env, cwd=rundir), logp))
+        lf.close()
+    timed_out = False
+    for p, _ in procs:
+        left = wall_limit - (time.time() - t0)
+        try:
+            p.wait(timeout=max(left, 1))
+        except subprocess.TimeoutExpired:
+            timed_out = True
+            p.kill()
+            p.wait()
+    if timed_out:
+        res.inconclusive.append("wall-clock watchdog (%ds) fired during fuzzing" % wall_limit)
+    stats = {"fuzz.executions": 0, "fuzz.coverage_edges_max": 0, "fuzz.features_max": 0, "fuzz.new_units_added": 0,
+             "fuzz.jobs_completed": 0, "fuzz.jobs_stopped_by_a_report": 0}
+    for p, logp in procs:
+        log = _read(logp, 4000000)
+        m = re.search(r"stat::number_of_executed_units:\s+(\d+)", log)
+        if m:
+            stats["fuzz.executions"] += int(m.group(1))
+        m = re.search(r"stat::new_units_added:\s+(\d+)", log)
+        if m:
+            stats["fuzz.new_units_added"] += int(m.group(1))
+        for m in re.finditer(r"cov: (\d+) ft: (\d+)", log):
+            stats["fuzz.coverage_edges_max"] = max(stats["fuzz.coverage_edges_max"], int(m.group(1)))
+            stats["fuzz.features_max"] = max(stats["fuzz.features_max"], int(m.group(2)))
+        if p.returncode == 0:
+            stats["fuzz.jobs_completed"] += 1
+        elif not timed_out:
+            stats["fuzz.jobs_stopped_by_a_report"] += 1
+            if "VRT-VIOLATION" not in log and "ERROR: " not in log and "runtime error" not in log and "VRT-HANG" not in log and "ASSERT" not in log \
+                    and not os.listdir(os.path.join(rundir, "art")):
+                raise HarnessFailure("fuzz job died without a report (rc=%d):\n%s" % (p.returncode, log[-3000:]))
+    stats["fuzz.corpus_units"] = len(os.listdir(os.path.join(rundir, "corpus")))
+    # ---- triage: every artifact on its own
+    arts = sorted(os.listdir(os.path.join(rundir, "art")))
+    stats["fuzz.artifacts"] = len(arts)
+    for n, a in enumerate(arts[:200]):
+        ap = os.path.join(rundir, "art", a)
+        data = open(ap, "rb").read()
+        sub = os.path.join(rundir, "triage%d" % n)
+        os.makedirs(sub, exist_ok=True)
+        env2 = dict(env)
+        env2["VRT_OUT"] = sub
+        env2["VRT_VERBOSE"] = "1"
+        try:
+            r = subprocess.run([binp, "-timeout=1200", "-rss_limit_mb=8192", "-malloc_limit_mb=4096", ap], capture_output=True, env=env2, cwd=sub, timeout=900)
+            rc, err = r.returncode, (r.stdout + r.stderr).decode("utf-8", "replace")
+        except subprocess.TimeoutExpired:
+            rc, err = -9, "VRT-HANG (wall clock, triage)"
+        cur = ""
+        for fn in os.listdir(sub):
+            if fn.endswith(".cur"):
+                cur = _read(os.path.join(sub, fn)).split("\x00")[0]
+        detail = "libFuzzer artifact %s (%d bytes): %s\n%s" % (a, len(data), data[:256].hex(), cur[:2500])
+        keys = re.findall(r"^VRT-VIOLATION key=(.*)$", err, re.M)
+        if keys:
+            dm = re.search(r"^VRT-DETAIL (.*)$", err, re.M)
+            for k in keys:
+                v = {"key": k, "phase": "fuzz", "index": 0, "detail": (dm.group(1) + "\n" if dm else "") + detail, "stderr": err[-3000:],
+                     "count": 1, "build": "fuzz", "fuzz_input_hex": data.hex()}
+                res.violations.setdefault(k, v)
+        elif "VRT-HANG" in err:
+            res.violations.setdefault("hang:fuzz", {"key": "hang:fuzz", "phase": "fuzz", "index": 0, "detail": "case exceeded its CPU-time budget in the fuzz run and again on its own\n" + detail,
+                                                    "stderr": err[-3000:], "count": 1, "build": "fuzz", "fuzz_input_hex": data.hex()})
+        elif rc == 0:
+            res.inconclusive.append("libFuzzer artifact %s did not reproduce on its own" % a)
+        else:
+            k = classify_crash(err, cur, rc if rc < 0 else -signal.SIGABRT, "fuzz")
+            if k.startswith("harness-bug:"):
+                raise HarnessFailure(k + "\n" + err[-3000:])
+            res.violations.setdefault(k, {"key": k, "phase": "fuzz", "index": 0, "detail": detail, "stderr": err[-6000:], "count": 1,
+                                          "build": "fuzz", "fuzz_input_hex": data.hex()})
+    # ---- worker reports (written at exit by every fuzz process)
+    for fn in sorted(os.listdir(rundir)):
+        if re.match(r"w\d+\.json$", fn):
+            try:
+                rep = json.load(open(os.path.join(rundir, fn)))
+            except ValueError:
+                continue
+            rep["violations"] = []          # derived from the artifacts above
+            res.reports.append(rep)
+    if res.reports:
+        c = res.reports[0].setdefault("counters", {})
+        for k, v in stats.items():
+            c[k] = c.get(k, 0) + v
+        res.reports[0].setdefault("requires", {})["fuzz.executions"] = spec["runs"] * jobs // 2
+    elif not res.violations:
+        raise HarnessFailure("no fuzz process wrote a report")
     res.wall = time.time() - t0
     return res
 
